@@ -370,6 +370,19 @@ def run(ctx):
                     bad_fixed.append((nm, before["values"][nm], v, "free but not assigned"))
             ctx.check("model: fixed parameters change only when assigned", not bad_fixed, lambda: {"op": desc, "changed": bad_fixed[:5], "history": log[-10:]},
                       mechanism="unassigned parameter changed by " + op)
+            if shaped is not None and op != "mask":
+                # the value the amplitude code gets: the shaped Variable called as a function, component by component, against the stored
+                # numbers and the coordinate form recorded for each component
+                try:
+                    got_s = np.asarray(shaped()).reshape((-1,))
+                    names_s = [k_[:-1] for k_ in shaped.all_name_list[::2]]
+                    want_s = np.array([cval(after, k_) for k_ in names_s])
+                    ok_s = got_s.shape == want_s.shape and np.max(np.abs(got_s - want_s)) <= 1e-12 * max(1.0, float(np.max(np.abs(want_s))))
+                    ctx.check("model: coordinate switch preserves the complex value", bool(ok_s),
+                              lambda: {"op": desc, "variable": "g_ls (shaped)", "returned_by_call": got_s, "stored": want_s, "polar_flags": [after["complex"].get(k_) for k_ in names_s], "history": log[-8:]},
+                              mechanism="shaped Variable() differs from its stored components after " + op)
+                except Exception as e_:
+                    ctx.count("shaped_read_error:" + type(e_).__name__)
             bad_tie = [g for g in groups() if len({after["values"][x] for x in g}) != 1]
             ctx.check("model: tied parameters read equal", not bad_tie, lambda: {"op": desc, "groups": bad_tie, "history": log[-10:]}, mechanism="tied parameters differ after " + op)
             for c in switched:
@@ -431,9 +444,15 @@ def run(ctx):
         f0, _ = cards.density(cfg, ps, **ex)
         if not np.median(f0) > 1e-20:
             continue
-        for opname in ("rp2xy_all", "xy2rp_all", "std_polar_all"):
+        one_c = [c_ for c_ in amp.vm.complex_vars if c_ + "r" in amp.vm.trainable_vars and "g_ls" in c_]
+        seq = ["rp2xy_all", "std_polar_all", "rp2xy_all", "xy2rp_all"] + ([("rp2xy", one_c[-1]), ("xy2rp", one_c[-1])] if one_c and not cp_chains else []) + ["std_polar_all"]
+        for opname in seq:
             try:
-                getattr(amp.vm, opname)()
+                if isinstance(opname, tuple):
+                    getattr(amp.vm, opname[0])(opname[1])
+                    opname = "%s(one coupling)" % opname[0]
+                else:
+                    getattr(amp.vm, opname)()
                 f1, _ = cards.density(cfg, ps, **ex)
             except Exception as e:
                 ctx.violation("model: coordinate switch preserves the complex value", ctx.exc_witness(e, op=opname, card=cards.short(card)), mechanism="coordinate switch on a model raises: " + opname)
